@@ -65,6 +65,12 @@ def written_string_language(chain):
     return '"(' + "|".join(alts) + ')*"'
 
 
+def coverage_table_attr(idx):
+    from . import coverage
+
+    return coverage.command_table_attr(idx, K.anchors(idx))
+
+
 def quoted_slots(fmt):
     """indices of `{}` placeholders that sit between double quotes in a format string"""
     out = []
@@ -107,6 +113,10 @@ def run(ctx, idx):
     if not printers:
         raise AnalysisError("C15.a: the formatting call the serialiser applies to numeric values was not found (str/repr/'{}'.format expected)")
     ctx.floor("C15.a", "scalar formatting sites in to_string", len(printers), 1)
+    lossy = [(f, n, what) for f in funcs for n, what in K.lossy_number_formatting(idx, f)]
+    ctx.ob("C15.a", "%s::numbers-printed-in-full" % ts.key, K.rel(ts), lossy[0][1].lineno if lossy else ts.node.lineno, not lossy,
+           "numbers are printed by str()/repr()/'{}' (shortest text that reads back to the same double)" if not lossy else
+           "`%s` (%s) prints a number with a fixed number of digits: a value with more significant digits is silently rounded in the text, so the reloaded program holds a different number" % (K.src(lossy[0][1])[:50], lossy[0][2]))
     rel = K.rel(ts)
     w = RL.not_included(RL.dfa(RL.L_REPR_INT), dfas["INT"])
     ctx.ob("C15.a", "%s::integers-reload" % ts.key, rel, printers[0][1].lineno, w is None, "every printed int is an INT token" if w is None else "str(int) can print %r, which the lexer does not read as INT" % w)
@@ -238,33 +248,73 @@ def run(ctx, idx):
     ctx.ob("C15.c", "%s::nested-lists" % ts.key, rel, ts.node.lineno, elem_handles_list,
            "list elements that are lists are serialised recursively" if elem_handles_list else
            "a list inside a list is printed with str(): a nested ListArgument loaded from source comes out as `<mpilot.arguments.ListArgument object at 0x...>`")
-    has_cmd = "result_name" in allsrc.replace("command.result_name", "") and "isinstance" in allsrc and ("Command)" in allsrc or "Command," in allsrc)
+    # Command objects: some `isinstance(x, Command)` test returns `x.result_name`
+    has_cmd = False
+    for f in funcs:
+        for n in own_nodes(f.node):
+            if isinstance(n, ast.If) and isinstance(n.test, ast.Call) and isinstance(n.test.func, ast.Name) and n.test.func.id == "isinstance" and len(n.test.args) == 2 and isinstance(n.test.args[0], ast.Name):
+                q = idx.qualname(f.module, n.test.args[1], f) or ""
+                if q.endswith(".Command"):
+                    v = n.test.args[0].id
+                    if any(isinstance(x, ast.Return) and isinstance(x.value, ast.Attribute) and x.value.attr == "result_name" and isinstance(x.value.value, ast.Name) and x.value.value.id == v for b in n.body for x in ast.walk(b)):
+                        has_cmd = True
     ctx.ob("C15.c", "%s::command-objects" % ts.key, rel, ts.node.lineno, has_cmd,
            "Command objects are written by result name" if has_cmd else "a Command object given as a reference (API-built program) is printed with str(), not by its result name")
     has_type = "valid_types" in allsrc
     ctx.ob("C15.c", "%s::type-objects" % ts.key, rel, ts.node.lineno, has_type,
            "type objects are written by their data-type name" if has_type else "a cleaned DataType value (a type object, API-built program) is printed as `<class 'float'>`, not as its table key")
-    has_dict = "isinstance(argument.value, dict)" in allsrc or ("dict" in allsrc and ".items()" in allsrc)
+    has_dict = False
+    for f in funcs:
+        for n in own_nodes(f.node):
+            if isinstance(n, ast.Call) and isinstance(n.func, ast.Name) and n.func.id == "isinstance" and len(n.args) == 2 and K.src(n.args[1]) in ("dict", "(dict,)", "Mapping", "collections.abc.Mapping"):
+                has_dict = True
+            if isinstance(n, (ast.GeneratorExp, ast.ListComp)) and isinstance(n.generators[0].iter, ast.Call) and isinstance(n.generators[0].iter.func, ast.Attribute) and n.generators[0].iter.func.attr == "items":
+                has_dict = has_dict or isinstance(n.generators[0].target, ast.Tuple)
     ctx.ob("C15.c", "%s::dicts" % ts.key, rel, ts.node.lineno, has_dict, "tuples (dicts) are written as key: value pairs" if has_dict else "dict values are not serialised as tuples")
     # ------------------------------------------------------------------ d
-    joins = [n for n in own_nodes(ts.node) if isinstance(n, ast.Call) and isinstance(n.func, ast.Attribute) and n.func.attr == "join" and n.args and isinstance(n.args[0], (ast.GeneratorExp, ast.ListComp))]
+    table_attr = coverage_table_attr(idx)
     ok = False
-    for j in joins:
-        g = j.args[0].generators[0]
-        if K.src(g.iter) in ("self.commands.values()",) and not g.ifs:
-            ok = True
+    for f in funcs:
+        for j in [n for n in own_nodes(f.node) if isinstance(n, ast.Call) and isinstance(n.func, ast.Attribute) and n.func.attr == "join" and n.args and isinstance(n.args[0], (ast.GeneratorExp, ast.ListComp))]:
+            g = j.args[0].generators[0]
+            it = g.iter
+            if isinstance(it, ast.Call) and isinstance(it.func, ast.Attribute) and it.func.attr == "values" and isinstance(it.func.value, ast.Attribute) and it.func.value.attr == table_attr and not g.ifs and len(j.args[0].generators) == 1:
+                ok = True
+        for lp in [n for n in own_nodes(f.node) if isinstance(n, ast.For)]:
+            it = lp.iter
+            if isinstance(it, ast.Call) and isinstance(it.func, ast.Attribute) and it.func.attr == "values" and isinstance(it.func.value, ast.Attribute) and it.func.value.attr == table_attr:
+                # explicit loop: every iteration must emit (no continue / conditional skip at the top level of the body)
+                if not any(isinstance(x, (ast.Continue, ast.Break)) for x in ast.walk(lp)) and not any(isinstance(st, ast.If) for st in lp.body):
+                    ok = True
     ctx.ob("C15.d", "%s::command-order" % ts.key, rel, ts.node.lineno, ok, "commands emitted in table order, unfiltered" if ok else "commands are not emitted by an unfiltered walk of the command table in order")
     ok = False
     for f in funcs:
         for n in own_nodes(f.node):
-            if isinstance(n, (ast.GeneratorExp, ast.ListComp)) and K.src(n.generators[0].iter) == "command.arguments" and not n.generators[0].ifs:
+            if isinstance(n, (ast.GeneratorExp, ast.ListComp)) and isinstance(n.generators[0].iter, ast.Attribute) and n.generators[0].iter.attr == "arguments" and not n.generators[0].ifs and len(n.generators) == 1 and isinstance(n.generators[0].target, ast.Name):
                 e = n.elt
-                if isinstance(e, ast.Call) and isinstance(e.func, ast.Attribute) and e.func.attr == "format" and e.args and K.src(e.args[0]) == "%s.name" % n.generators[0].target.id:
+                tv = n.generators[0].target.id
+                if isinstance(e, ast.Call) and isinstance(e.func, ast.Attribute) and e.func.attr == "format" and e.args and isinstance(e.args[0], ast.Attribute) and e.args[0].attr == "name" and isinstance(e.args[0].value, ast.Name) and e.args[0].value.id == tv:
+                    ok = True
+            if isinstance(n, ast.For) and isinstance(n.iter, ast.Attribute) and n.iter.attr == "arguments" and isinstance(n.target, ast.Name):
+                tv = n.target.id
+                emits = [c for c in ast.walk(n) if isinstance(c, ast.Call) and isinstance(c.func, ast.Attribute) and c.func.attr == "format" and c.args and isinstance(c.args[0], ast.Attribute) and c.args[0].attr == "name" and isinstance(c.args[0].value, ast.Name) and c.args[0].value.id == tv]
+                if emits and not any(isinstance(x, (ast.Continue, ast.Break)) for x in ast.walk(n)) and not any(isinstance(st, ast.If) for st in n.body):
                     ok = True
     ctx.ob("C15.d", "%s::argument-order" % ts.key, rel, ts.node.lineno, ok, "arguments emitted in order under their own names" if ok else "arguments are not emitted in command.arguments order under their own names")
+    from .C10 import actions_keep_values
+
+    actions_keep_values(ctx, idx, L, "C15.b")
     from .C16 import parser_state
     ctx.rule("C15.e", "The loader's parser carries no state from one load to the next: every attribute a grammar action sets is reset by parse(), or a fresh Parser is built for each load.")
     parser_state(ctx, idx, "C15.e")
     # result name and command name
-    ok = any("command.result_name" in K.src(n) and "command.name" in K.src(n) for f in funcs for n in own_nodes(f.node) if isinstance(n, ast.Call) and isinstance(n.func, ast.Attribute) and n.func.attr == "format")
+    ok = False
+    for f in funcs:
+        for n in own_nodes(f.node):
+            if isinstance(n, ast.Call) and isinstance(n.func, ast.Attribute) and n.func.attr == "format":
+                attrs = [(a.value.id, a.attr) for a in n.args if isinstance(a, ast.Attribute) and isinstance(a.value, ast.Name)]
+                for v in {b for b, _ in attrs}:
+                    mine = [at for b, at in attrs if b == v]
+                    if "result_name" in mine and "name" in mine and mine.index("result_name") < mine.index("name"):
+                        ok = True
     ctx.ob("C15.d", "%s::heads" % ts.key, rel, ts.node.lineno, ok, "each command is written as result_name = name(...)" if ok else "a command is not written as `result_name = command name(...)`")
